@@ -95,6 +95,70 @@ theorem C09_mtu_formula (L num den : Nat) :
   rw [this]
   simp only [show (60 : Int) - 1 = 59 from rfl]
 
+/-! ### non-vacuity: the hypotheses are satisfiable together, and the conclusion is the intended one -/
+
+/-- a tiny codec that provably meets both C08 hypotheses (two letters a..p per byte) -/
+def nibble : Codec :=
+  ⟨fun bs => bs.flatMap (fun b => [97 + b / 16 % 16, 97 + b % 16]),
+   let rec dec : List Nat → Option (List Nat)
+     | [] => some []
+     | [_] => none
+     | x :: y :: rest => (dec rest).map (((x - 97) * 16 + (y - 97)) :: ·)
+   dec⟩
+
+theorem nibble_good : nibble.Good := by
+  constructor
+  intro bs hbs
+  induction bs with
+  | nil => rfl
+  | cons b bs ih =>
+    have hb : b < 256 := hbs b (by simp)
+    have hbs' : SA.Bytes bs := fun x hx => hbs x (by simp [hx])
+    have := ih hbs'
+    simp only [nibble, List.flatMap_cons, List.cons_append, List.nil_append] at this ⊢
+    simp only [nibble.dec, this, Option.map_some]
+    congr 2
+    omega
+
+theorem nibble_safe : nibble.Safe := by
+  constructor
+  intro bs x hx
+  simp only [nibble, List.mem_flatMap] at hx
+  obtain ⟨b, _, hx⟩ := hx
+  simp at hx
+  omega
+
+example :
+    let cache := [120, 121, 122]            -- "xyz"
+    let domain := [116, 46, 101, 120]       -- "t.ex"
+    let r := Req.packet 1295 65535 (some (65535, [0, 46, 92, 255]))
+    ∃ host labels, prepareHostname (encodeReq nibble nibble cache r) domain = some host
+      ∧ nameOverWire host = .ok labels
+      ∧ roundTrip nibble nibble cache domain r = .ok (unpackName labels) labels r := by
+  intro cache domain r
+  have hs : (prepareHostname (encodeReq nibble nibble cache r) domain).isSome = true := by decide
+  obtain ⟨host, hfit⟩ := Option.isSome_iff_exists.mp hs
+  have hc : CacheOk cache := by unfold CacheOk; decide
+  have hdom : DomainOk domain [[116], [101, 120]] := by
+    refine ⟨by decide, ?_, ?_⟩
+    · unfold GoodLabel NoSyntax; decide
+    · unfold PlainLabel; decide
+  have hr : ReqOk r := by
+    refine ⟨by decide, by decide, ?_⟩
+    intro p hp
+    cases hp
+    exact ⟨by decide, by decide⟩
+  obtain ⟨labels, h1, h2⟩ :=
+    C09_request_roundtrip nibble nibble nibble_good nibble_good nibble_safe nibble_safe
+      cache domain _ hc hdom r hr host hfit
+  exact ⟨host, labels, hfit, h1, h2⟩
+
+/-- the executable model on a concrete request with the local Base32: the server sees the same packet -/
+example :
+    (match roundTrip base32 base32 [97, 98, 99] [97, 46, 98] (.packet 7 300 (some (9, [1, 2, 250]))) with
+     | .ok _ _ r => r == .packet 7 300 (some (9, [1, 2, 250]))
+     | _ => false) = true := by decide
+
 end SA.DnsReq
 
 #print axioms SA.DnsReq.C09_request_roundtrip
